@@ -360,6 +360,11 @@ func (ex *Exec) callSSA(caller *frame, callpos token.Pos, fn *ssa.Function, args
 		if intr := intrinsics[name]; intr != nil {
 			return intr(ex, fr, args)
 		}
+		if fp := fastPaths[name]; fp != nil {
+			if v, ok := fp(ex, args); ok {
+				return v
+			}
+		}
 		if fn.Blocks == nil {
 			// maybe a generic or synthetic with origin
 			if ex.initing > 0 {
@@ -440,6 +445,9 @@ func (ex *Exec) runFrame(fr *frame) {
 			}
 			fr.curInstr = instr
 			ex.cur = fr
+			if ex.stepProf != nil {
+				ex.stepProf[fr.fn]++
+			}
 			if ex.visitInstr(fr, instr) == kReturn {
 				return
 			}
